@@ -46,6 +46,10 @@ const (
 	// BuildSidecarVirtualHostWrapper ranges over the service map; a domain shared by several services (the address
 	// of a multi-host ServiceEntry) is given to whichever virtual host is built first
 	findSharedVIP = "C17-vhost-shared-domain"
+	// K10 as it really bites: buildSidecarVirtualHostsForVirtualService ranges over serviceByPort (a map), so for the
+	// HTTP_PROXY route (listenerPort 0) the portless domains of a host go to the virtual host of whichever port comes
+	// first, and mergeAllVirtualHosts then drops them unless that port is 80
+	findHTTPProxy = "C17-K10-httpproxy-port-order"
 )
 
 // ---------------------------------------------------------------- pools
@@ -953,15 +957,16 @@ func TestGen(t *testing.T) {
 	features.SidecarPickBestServiceNamespace = true
 	r := vlib.NewRand(vlib.Seed())
 	id := 0
-	genSortSvc(c, &id, r.Sub(), vlib.Scale(90, 3000))
-	genCmpSvc(c, &id, r.Sub(), vlib.Scale(90, 3000))
-	genSortCfg(c, &id, r.Sub(), vlib.Scale(90, 3000))
-	genCmpCfg(c, &id, r.Sub(), vlib.Scale(90, 3000))
+	genSortSvc(c, &id, r.Sub(), vlib.Scale(90, 1500))
+	genCmpSvc(c, &id, r.Sub(), vlib.Scale(90, 1500))
+	genSortCfg(c, &id, r.Sub(), vlib.Scale(90, 1500))
+	genCmpCfg(c, &id, r.Sub(), vlib.Scale(90, 1500))
 	genShards(c, &id, r.Sub(), vlib.Scale(25, 800))
-	genPickNs(t, c, &id, r.Sub(), vlib.Scale(60, 2000))
-	genMergeVh(c, &id, r.Sub(), vlib.Scale(30, 1200))
-	genHostIdx(c, &id, r.Sub(), vlib.Scale(24, 500))
-	genDirect(t, c, &id, r.Sub(), vlib.Scale(6, 72))
+	genPickNs(t, c, &id, r.Sub(), vlib.Scale(60, 1200))
+	genMergeVh(c, &id, r.Sub(), vlib.Scale(30, 600))
+	genHostIdx(c, &id, r.Sub(), vlib.Scale(24, 300))
+	genLocality(t, c, &id, r.Sub(), vlib.Scale(12, 120))
+	genDirect(t, c, &id, r.Sub(), vlib.Scale(6, 42))
 	if err := c.Flush(); err != nil {
 		t.Fatal(err)
 	}
